@@ -207,6 +207,39 @@ class C04(Prop):
                 else:
                     steps.append({"t": "call", "m": "__setitem__", "a": [E(k), E(v)], "k": {}})
             expect.append([E(k), E(v), kind])
+        if len(keys) >= 2 and rng.random() < 0.3:
+            # one multi-item set_many that overwrites several keys with values of DIFFERENT kinds (each item
+            # carries its own serializer flags), in an order of its own
+            ks = rng.sample(keys, rng.randint(2, len(keys)))
+            kinds_all = {"none": ["bytes", "str", "int"], "json": ["str", "json"]}.get(sk, ["bytes", "str", "int", "obj"])
+            kinds = [kinds_all[(j + rng.randrange(len(kinds_all))) % len(kinds_all)] if j else rng.choice(kinds_all)
+                     for j in range(len(ks))]
+            if len(set(kinds)) == 1 and len(kinds_all) > 1:
+                kinds[-1] = [x for x in kinds_all if x != kinds[0]][0]
+            d = {}
+            for kk, kind2 in zip(ks, kinds):
+                v2 = gen_value(rng, kind2, sizes)
+                uniq += 1
+                if kind2 == "bytes":
+                    tag = b"<%d>" % uniq
+                    v2 = ((tag + v2[len(tag):]) if len(v2) >= len(tag) else v2 + tag)[:cap]
+                if kind2 == "str" and sk in ("none", "json") and encoding == "ascii":
+                    v2 = "".join(c for c in v2 if ord(c) < 128)
+                d[kk] = v2
+                for e in expect:
+                    if codec.dec(e[0]) == kk and type(codec.dec(e[0])) is type(kk):
+                        e[1], e[2] = E(v2), kind2
+            steps.append({"t": "call", "m": "set_many", "a": [E(d)], "k": {"noreply": rng.choice([True, False])}})
+        if sk == "compressed" and serde["codec"] != "id" and serde["min"] > 0 and item_max is None and rng.random() < 0.06:
+            # a value whose serialized form is far larger than the item limit but compresses to well below it
+            big = rng.choice([(1 << 20) + 1, (1 << 21), 3 * (1 << 20) + 5])
+            kk = rng.choice(keys)
+            uniq += 1
+            v2 = (b"<%d>" % uniq) + bytes([rng.randrange(256)]) * big
+            steps.append({"t": "call", "m": "set", "a": [E(kk), E(v2)], "k": {"noreply": False}})
+            for e in expect:
+                if codec.dec(e[0]) == kk and type(codec.dec(e[0])) is type(kk):
+                    e[1], e[2] = E(v2), "bytes"
         for _ in range(rng.randint(2, 6)):
             m = rng.choice(["get", "gets", "gat", "gats", "getitem", "get_many", "get_many", "gets_many"])
             st = None
@@ -354,7 +387,7 @@ class C04(Prop):
                 st = scn["steps"][rec.step]
                 disc = "one-shot-iterator" if st.get("coll") == "iter" else None
                 out.append(viol("legal-input-raised", rec, disc=disc, exc=type(rec.exc).__name__,
-                                msg=str(rec.exc)[:100]))
+                                msg=engine._exc_text(rec.exc)[:100]))
         if not out:
             # (i) what the server holds
             for wk, (k, v, kind) in by_wk.items():
